@@ -41,7 +41,7 @@ const YOU = "000000000000000000"
 
 func smoke() {
 	h := &History{
-		Params: Params{Freq: 4, WithdrawDelay: 2, Retention: 4, MaxRewardsPeriod: 2, ExpelDS: 6, ExpelInactive: 4, FracDS: 2, FracInactive: 1, InactWait: 5,
+		Params: Params{Unit: "1000000000000000000", Freq: 4, WithdrawDelay: 2, Retention: 4, MaxRewardsPeriod: 2, ExpelDS: 6, ExpelInactive: 4, FracDS: 2, FracInactive: 1, InactWait: 5,
 			MinStakes: [3]uint64{10, 5, 2}, MaxStakes: [3]uint64{100, 60, 30}, MinSelf: [3]uint64{5, 5, 0}, Ratio: [3]uint64{3, 3, 4},
 			MaxDlgVal: 3, MaxDlgDlg: 2, MinDlgTokens: "2" + YOU, SubsidyThreshold: 9000000000000000000, SubsidyCoeff: 5},
 		Balances: []string{"1000" + YOU, "1000" + YOU, "1000" + YOU, "50" + YOU},
